@@ -83,6 +83,18 @@ def run_geometry(ctx, P):
     from hexital.analysis import movement
     ctx.equal("movement.positive(candle)", movement.positive(cd), c > o)
     ctx.equal("movement.negative([candle])", movement.negative([cd]), c < o)
+    # the same candle after its values changed (a later raw candle merged into the bucket it forms): the shape follows
+    # the values the candle has NOW
+    o2, h2, l2, c2, v2 = sym_ohlcv(ctx, 1)
+    cd.merge(Candle(o2, h2, l2, c2, v2))
+    mo, mh, ml, mc = cd.open, cd.high, cd.low, cd.close
+    ctx.equal("merged: values", [mo, mh, ml, mc], [o, ctx.max(h, h2), ctx.min(l, l2), c2])
+    ctx.equal("merged: realbody==|open-close|", cd.realbody, ctx.abs(mo - mc))
+    ctx.equal("merged: shadow_upper==high-max(open,close)", cd.shadow_upper, mh - ctx.max(mo, mc))
+    ctx.equal("merged: shadow_lower==min(open,close)-low", cd.shadow_lower, ctx.min(mo, mc) - ml)
+    ctx.equal("merged: high_low==high-low", cd.high_low, mh - ml)
+    ctx.equal("merged: positive<=>close>open", cd.positive, mc > mo)
+    ctx.equal("merged: negative<=>close<open", cd.negative, mc < mo)
 
 
 # ------------------------------------------------------------------ patterns
@@ -218,7 +230,7 @@ def run_move_invariance(ctx, P):
 
 
 META = dict(
-    bounds=dict(quick="movements: N=3 candles, readings A/B symbolic-or-missing, index in [1,2], length in [1,4]; geometry: one symbolic well-formed candle; patterns: 12 symbolic candles (history range >= 1 each), witness / one-clause-broken constraints with 2x margins on every threshold, shift by a symbolic constant, scaling by a symbolic factor in [0.001, 1000]",
+    bounds=dict(quick="movements: N=3 candles, readings A/B symbolic-or-missing, index in [1,2], length in [1,4]; geometry: one symbolic well-formed candle; patterns: 12 symbolic candles (history range >= 1 each), witness / one-clause-broken constraints with 2x margins on every threshold, shift by a symbolic constant, scaling by a symbolic factor in [0.001, 1000]; geometry re-read after Candle.merge with a second symbolic candle",
                 thorough="movements N=4"),
     stubs=["exact real arithmetic (scale invariance is nonlinear: z3 nlsat)", "max/min/abs -> If-terms"],
     assumptions=["highestbar/lowestbar look at the `length` bars ending at the current one (the window Aroon relies on); highest/lowest/value_range at the current candle and the `length` before it", "pattern thresholds: TA-Lib candle settings (BodyLong/BodyShort: average body of 10; Doji/ShadowVeryShort: 10% of average range of 10; Near: 20% of average range of 5); ShadowLong: longer than the body"],
